@@ -550,9 +550,9 @@ def gen_cases(target):
         st.integers(0, 2**31 - 1),
         st.dictionaries(st.integers(0, 20).map(str), st.sampled_from(["a", "b", "a", "t", "a", "fn", "result", "abs_x", "a"]), max_size=5),
         st.booleans(),
-        st.sampled_from([0, 1, 0, 1, 2]),  # numpy: debug level (2 also prints every intermediate value)
+        st.integers(0, 1),  # numpy: debug level (the property quantifies over 0/1)
         st.one_of(st.none(), st.integers(1, 6)),
-        st.sampled_from([None, None, False, True]),  # numpy: force_cast_arguments
+        st.sampled_from([None, None, True]),  # numpy: force_cast_arguments left at its default or given explicitly
     )
 
 
